@@ -644,6 +644,9 @@ class GroupBy:
                 ),
             )
 
+        # validate the caller's objects: the timestamp conversion below drops the index
+        to_check = list(value_list)
+
         type_list = [None] * len(value_list)
         for i, val in enumerate(value_list):
             if series_is_timestamp(val):
@@ -651,7 +654,6 @@ class GroupBy:
             else:
                 type_list[i] = val.dtype if hasattr(val, "dtype") else val.type
 
-        to_check = value_list
         if mask is not None and pd.api.types.is_bool_dtype(mask):
             to_check = [*to_check, mask]
 
